@@ -25,7 +25,10 @@ class NumberTree:
         if "Limits" in self._obj:
             self.limits = list_value(self._obj["Limits"])
 
-    def _parse(self) -> List[Tuple[int, Any]]:
+    def _parse(self, _visited: Optional[List[Any]] = None) -> List[Tuple[int, Any]]:
+        # the nodes on the path from the root: a node that is its own
+        # descendant would be descended into for ever
+        visited = (_visited or []) + [id(self._obj)]
         items = []
         if self.nums:  # Leaf node
             for k, v in choplist(2, self.nums):
@@ -33,7 +36,13 @@ class NumberTree:
 
         if self.kids:  # Root or intermediate node
             for child_ref in self.kids:
-                items += NumberTree(child_ref)._parse()
+                child = NumberTree(child_ref)
+                # (an indirect child is known by its object number, so that
+                # the test also works when objects are not cached)
+                key = getattr(child_ref, "objid", None) or id(child._obj)
+                if key in visited:
+                    continue
+                items += child._parse(visited + [key])
 
         return items
 
